@@ -66,9 +66,15 @@ func dictBatch(c DictCase) spec.Batch {
 			}
 		case 2:
 			in = []int{k % n, (k + 1) % n}
+		case 3: // every term in exactly one doc, indexed without frequencies (freq 0: no norm stored)
+			in = []int{k % n}
 		}
 		for _, d := range in {
-			toks[d] = append(toks[d], spec.Tok{Term: t, Freq: 1})
+			f := 1
+			if c.Pattern == 3 {
+				f = 0
+			}
+			toks[d] = append(toks[d], spec.Tok{Term: t, Freq: f})
 		}
 		k++
 	}
@@ -285,13 +291,13 @@ func init() {
 	run.Register(&run.Def{
 		ID:          "C08",
 		Level:       "exploration",
-		Rule:        "bounded-exhaustive: every subset of a 6-term universe (empty term, a, ab, b, ba, 2-byte UTF-8) as the term set of a field x 3 postings-size patterns (all single-document; alternating 1 / 2-3 documents; all 2 documents) x provenance {built, re-opened, merged once, merged twice} (merging turns single-document frequency-1 terms into single-hit dictionary entries, so the SEQUENCE of encodings met by the iterator's reused scratch list ranges over all patterns) x 25 automata (nil=match-all, exact(u) for every u and an absent term, 5 prefixes incl. a partial UTF-8 byte, 7 vellum regular expressions, 4 vellum Levenshtein distance-1 automata, never-matching) x every well-formed key range over 10 bounds (absent, equal to / between / below / above existing terms; start < end). Oracle: ascending byte order, exactly the accepted terms in range (acceptance decided independently by string functions, Go regexp and an edit-distance function), DictEntry.Count == postings size of that term, Contains for every term of the universe, Cardinality; fields without dictionary (absent field, synonym field) give empty results. Non-trivial = term set with >= 2 terms.",
+		Rule:        "bounded-exhaustive: every subset of a 6-term universe (empty term, a, ab, b, ba, 2-byte UTF-8) as the term set of a field x 4 postings patterns (all single-document; alternating 1 / 2-3 documents; all 2 documents; all single-document with frequency 0, i.e. no norm stored) x provenance {built, re-opened, merged once, merged twice} (merging turns single-document frequency-1 terms into single-hit dictionary entries, so the SEQUENCE of encodings met by the iterator's reused scratch list ranges over all patterns) x 25 automata (nil=match-all, exact(u) for every u and an absent term, 5 prefixes incl. a partial UTF-8 byte, 7 vellum regular expressions, 4 vellum Levenshtein distance-1 automata, never-matching) x every well-formed key range over 10 bounds (absent, equal to / between / below / above existing terms; start < end). Oracle: ascending byte order, exactly the accepted terms in range (acceptance decided independently by string functions, Go regexp and an edit-distance function), DictEntry.Count == postings size of that term, Contains for every term of the universe, Cardinality; fields without dictionary (absent field, synonym field) give empty results. Non-trivial = term set with >= 2 terms.",
 		Assumptions: batchAssumptions,
-		Bounds:      map[string]string{"quick": "all 64 term sets x 3 patterns x 4 provenances x 25 automata x 64 ranges", "thorough": "additionally all 256 subsets of an 8-term universe (adds a longer term sharing a prefix and a term above all others) x the same patterns, provenances, automata and ranges"},
+		Bounds:      map[string]string{"quick": "all 64 term sets x 4 patterns x 4 provenances x 25 automata x 64 ranges", "thorough": "additionally all 256 subsets of an 8-term universe (adds a longer term sharing a prefix and a term above all others) x the same patterns, provenances, automata and ranges"},
 		New:         func() interface{} { return &DictCase{} },
 		Gen: func(tier string, emit func(interface{})) {
 			for _, prov := range []string{"built", "opened", "merged1", "merged2"} {
-				for pattern := 0; pattern < 3; pattern++ {
+				for pattern := 0; pattern < 4; pattern++ {
 					for set := 0; set < 1<<uint(len(dictUniverse)); set++ {
 						emit(DictCase{Set: set, Pattern: pattern, Prov: prov})
 					}
